@@ -130,6 +130,13 @@ Proof.
   repeat match type of H with (if ?c then _ else _) = _ => destruct c eqn:?; try discriminate end. lia.
 Qed.
 
+Lemma view_attr_checks_res : forall f b,
+  raster_view_attr_checks f b = Ok tt \/ raster_view_attr_checks f b = Err 5.
+Proof.
+  intros. unfold raster_view_attr_checks.
+  repeat match goal with |- context [if ?c then _ else _] => destruct c end; auto.
+Qed.
+
 Lemma view_checks_res : forall w h x0 y0 x1 y1,
   raster_view_checks w h x0 y0 x1 y1 = Ok tt \/ raster_view_checks w h x0 y0 x1 y1 = Err 5.
 Proof.
@@ -177,11 +184,13 @@ Proof.
     destruct (raster_view_checks (vp_maxw (g_vp st)) (vp_maxh (g_vp st)) x0 y0 x1 y1) as [[]| | |] eqn:Echk;
       cbn [bind] in H; try discriminate.
     pose proof (view_checks_ok _ _ _ _ _ _ Echk) as Hrange.
+    destruct (raster_view_attr_checks (option_map fst fill) (option_map fst border)) as [[]| | |] eqn:Eachk;
+      cbn [bind] in H; try discriminate.
     assert (Hset : wf_vp (vp_set (g_vp st) x0 y0 x1 y1 ab)) by (apply vp_set_wf; lia).
     assert (Hfill : Forall (req_ok (vp_unset (g_vp st)))
-                      match fill with Some f => gen_boxfill (vp_unset (g_vp st)) x0 y0 x1 y1 f | None => [] end).
-    { destruct fill as [f|]; [apply gen_boxfill_safe; exact Hu | constructor]. }
-    destruct border as [b|].
+                      match fill with Some (_, f) => gen_boxfill (vp_unset (g_vp st)) x0 y0 x1 y1 f | None => [] end).
+    { destruct fill as [[fr f]|]; [apply gen_boxfill_safe; exact Hu | constructor]. }
+    destruct border as [[br b]|].
     + destruct (gen_box_safe (vp_unset (g_vp st)) (x0 - 1) (y0 - 1) (x1 + 1) (y1 + 1) b 65535) as [l [El Fl]].
       rewrite El in H. cbn [bind] in H. injection H as E1 E2 E3. subst.
       split; [reflexivity|]. split; [exact Hu|].
@@ -296,7 +305,9 @@ Proof.
     + destruct (gen_box_safe (g_vp st) x0 y0 x1 y1 a p) as [l [El _]]. rewrite El in Er. discriminate.
     + destruct (view_checks_res (vp_maxw (g_vp st)) (vp_maxh (g_vp st)) x0 y0 x1 y1) as [Ec|Ec]; rewrite Ec in Er;
         cbn [bind] in Er; [|discriminate].
-      destruct border as [b|]; [|discriminate].
+      destruct (view_attr_checks_res (option_map fst fill) (option_map fst border)) as [Ea|Ea]; rewrite Ea in Er;
+        cbn [bind] in Er; [|discriminate].
+      destruct border as [[br b]|]; [|discriminate].
       destruct (gen_box_safe (vp_unset (g_vp st)) (x0 - 1) (y0 - 1) (x1 + 1) (y1 + 1) b 65535) as [l [El _]].
       rewrite El in Er. discriminate.
     + unfold put_reqs in Er. destruct (negb _); [discriminate|]. destruct (negb _); discriminate.
@@ -306,7 +317,9 @@ Proof.
     + destruct (gen_box_safe (g_vp st) x0 y0 x1 y1 a p) as [l [El _]]. rewrite El in Er. discriminate.
     + destruct (view_checks_res (vp_maxw (g_vp st)) (vp_maxh (g_vp st)) x0 y0 x1 y1) as [Ec|Ec]; rewrite Ec in Er;
         cbn [bind] in Er; [|discriminate].
-      destruct border as [b|]; [|discriminate].
+      destruct (view_attr_checks_res (option_map fst fill) (option_map fst border)) as [Ea|Ea]; rewrite Ea in Er;
+        cbn [bind] in Er; [|discriminate].
+      destruct border as [[br b]|]; [|discriminate].
       destruct (gen_box_safe (vp_unset (g_vp st)) (x0 - 1) (y0 - 1) (x1 + 1) (y1 + 1) b 65535) as [l [El _]].
       rewrite El in Er. discriminate.
     + unfold put_reqs in Er. destruct (negb _); [discriminate|]. destruct (negb _); discriminate.
